@@ -363,6 +363,88 @@ def check_hash(ctx, mod, cls, cname):
         ctx.holds("R3", construct, where(mod, fn), "hash is a function of self.vector only: %s" % text(rets[0].value))
 
 
+def r7_generate(ctx, repo):
+    """GeneticAlgorithm.generate: a child is looked up in the list of offspring and then inserted or skipped.  Between
+    the look-up of a child and the decision about it nothing else may be inserted: a look-up made before the sibling
+    was appended does not see the sibling, so two identical children are both inserted"""
+    from ..paths import Enumerator
+    from ..astutil import calls_in, func_params, stmts_of
+    if not repo.has_cls("GeneticAlgorithm"):
+        return
+    cls = repo.cls("GeneticAlgorithm")
+    mod = cls.module
+    fn = cls.methods.get("generate")
+    C = "GeneticAlgorithm.generate"
+    if fn is None:
+        ctx.inconclusive("R7", C, where(mod, cls.node), "generate() not found")
+        return
+    loops = [s_ for s_ in fn.body if isinstance(s_, (ast.While, ast.For))]
+    if len(loops) != 1:
+        ctx.inconclusive("R7", C, where(mod, fn), "offspring loop not recognised")
+        return
+    lp = loops[0]
+    # the offspring list: the list that is appended to inside the loop and returned
+    apps = [c for c in calls_in(lp) if isinstance(c.func, ast.Attribute) and c.func.attr == "append" and isinstance(c.func.value, ast.Name) and c.args
+            and isinstance(c.args[0], ast.Name)]
+    lists = {c.func.value.id for c in apps}
+    if len(lists) != 1:
+        ctx.inconclusive("R7", C, where(mod, lp), "offspring list not recognised")
+        return
+    L = next(iter(lists))
+    children = {c.args[0].id for c in apps}
+
+    def lookups(node):
+        """children looked up in L by the expression/statement"""
+        out = set()
+        for n in ast.walk(node):
+            if isinstance(n, ast.Compare) and len(n.ops) == 1:
+                a, b = n.left, n.comparators[0]
+                if isinstance(n.ops[0], (ast.In, ast.NotIn)) and isinstance(a, ast.Name) and a.id in children and access_path(b) == L:
+                    out.add(a.id)
+            if isinstance(n, (ast.GeneratorExp, ast.ListComp)) and len(n.generators) == 1 and access_path(n.generators[0].iter) == L \
+                    and isinstance(n.elt, ast.Compare) and len(n.elt.ops) == 1 and isinstance(n.elt.ops[0], (ast.Eq, ast.NotEq)):
+                for x in (n.elt.left, n.elt.comparators[0]):
+                    if isinstance(x, ast.Name) and x.id in children:
+                        out.add(x.id)
+            if isinstance(n, ast.Call) and isinstance(n.func, ast.Attribute) and n.func.attr in ("count", "index") and access_path(n.func.value) == L and n.args \
+                    and isinstance(n.args[0], ast.Name) and n.args[0].id in children:
+                out.add(n.args[0].id)
+        return out
+    from .c02 import body_fn
+    bad = None
+    n = 0
+    for p in Enumerator(loop_counts=(0, 1)).function_paths(body_fn(lp.body, fn.args, lp.lineno)):
+        if p.outcome == "raise":
+            continue
+        n += 1
+        looked = {}        # child -> index of its latest look-up
+        inserted = []      # (index, child)
+        for i, e in enumerate(p.events):
+            node = e.node
+            if node is None:
+                continue
+            if e.kind in ("guard",) or (e.kind == "stmt" and not isinstance(node, (ast.For, ast.While))):
+                for ch in lookups(node):
+                    looked[ch] = i
+            if e.kind == "stmt":
+                for c in calls_in(node):
+                    if isinstance(c.func, ast.Attribute) and c.func.attr == "append" and access_path(c.func.value) == L and c.args and isinstance(c.args[0], ast.Name):
+                        ch = c.args[0].id
+                        if ch in looked:
+                            between = [x for j, x in inserted if j > looked[ch] and x != ch]
+                            if between:
+                                bad = bad or (node, "%s is looked up in %s before %s is appended and inserted afterwards on the strength of that look-up (path [%s]): "
+                                                    "two children with identical coordinates are both inserted, the repeated design is not identified"
+                                                    % (ch, L, between[0], p.describe(6)))
+                        inserted.append((i, ch))
+    if bad:
+        ctx.violated("R7", C, where(mod, bad[0]), bad[1])
+    elif n:
+        ctx.holds("R7", C, where(mod, lp), "on all %d paths of one mating no child is inserted on a look-up that is older than the latest insertion" % n)
+    else:
+        ctx.inconclusive("R7", C, where(mod, lp), "no path through the mating loop")
+
+
 def run(ctx):
     repo = ctx.repo
     ctx.rule("R1", "__eq__ returns True iff every coordinate difference is zero (automaton over letters Z/P/N; iteration domain [0,len))")
@@ -392,6 +474,8 @@ def run(ctx):
     from . import c03
     from .c18 import SubCtx
     c03.r2_truncate(SubCtx(ctx, "R6", prefix="de-duplication: "), repo)
+    ctx.rule("R7", "offspring generation: every duplicate test is made against the offspring list as it is when the child is inserted")
+    r7_generate(ctx, repo)
     # R5 evidence: relying sites
     sites = []
     for m in repo.modules.values():
